@@ -248,7 +248,7 @@ def held(cf):
 
 
 def run_tree(node, leaves, env, note):
-    """evaluate the expression with the real containers; note(node label, result) after every operation"""
+    """evaluate the expression with the real containers; note(node label, operands, result) after every operation"""
     from yaw import CorrFunc
     op = node["op"]
     if op == "leaf":
@@ -259,6 +259,8 @@ def run_tree(node, leaves, env, note):
         a = run_tree(node["a"], leaves, env, note)
         b = run_tree(node["b"], leaves, env, note) if "b" in node else None
     label = node_label(node)
+    operands = args if op == "sum" else [x for x in (a, b) if x is not None]
+    before = [held(x) for x in operands]
     try:
         if op == "add":
             out = a + b
@@ -297,7 +299,7 @@ def run_tree(node, leaves, env, note):
             out = CorrFunc.from_dict(a.to_dict())
     except Exception as e:  # noqa: BLE001
         raise OpRaised(label, e) from e
-    note(label, out)
+    note(label, before, out)
     return out
 
 
@@ -310,7 +312,7 @@ def expr_term(node, n_of):
     """n_of(node) -> (number of bins, number of patches) of the operand of a selection"""
     op = node["op"]
     if op == "leaf":
-        return "l%d" % node["i"]
+        return "(X_leaf l%d)" % node["i"]
     if op in ("add", "iadd"):
         return "(X_add %s %s)" % (expr_term(node["a"], n_of), expr_term(node["b"], n_of))
     if op == "sum":
@@ -443,10 +445,10 @@ def role_noter(ctx, fam, tree, replay):
     want = tuple(fam["roles"])
     seen = set()
 
-    def note(label, out):
+    def note(label, before, out):
         ctx.bump("alg-op/%s" % label)
         got = held(out)
-        if got != want and label not in seen:
+        if got != want and any(b == want for b in before) and label not in seen:     # this operation changed them
             seen.add(label)
             op = label.split(":")[0]
             ctx.fail("c04-algebra-roles-changed:%s" % op, "the CorrFunc returned by the operation '%s' inside %s holds the pair counts {%s}; its "
@@ -523,7 +525,7 @@ def case_refusal(ctx, batch, fam, other, why, how):
     b = jk.build_corrfunc(fam["edges"], other)
     raised = True
     try:
-        out = jk.quiet(run_tree, tree, [a, b], dict(dir=ctx.workdir), lambda label, o: None)
+        out = jk.quiet(run_tree, tree, [a, b], dict(dir=ctx.workdir), lambda label, before, o: None)
         raised = False
         replay["held"] = list(held(out))
     except OpRaised as e:
